@@ -366,6 +366,9 @@ func checkC14(c *Check) {
 	c.hostnameNormalisation()
 	c.inventoryClientRules("R6")
 	c.cancelBeforeDrain("R3", l.Func("provider/cluster", "deploymentMonitor", "run"))
+	// the manager's exit waits for the withdrawal worker: a withdrawal that waits for an in-flight broadcast before
+	// cancelling its context never lets the manager release hostnames and reservation
+	c.cancelBeforeDrain("R3", l.Func("provider/cluster", "deploymentWithdrawal", "run"))
 	// subscribe-then-snapshot: a lease-closed event published while the start-up snapshot of deployed leases is being
 	// taken must already be buffered by the subscription, or the manager created from the snapshot is never told
 	{
